@@ -7,7 +7,7 @@
 From Coq Require Import String Ascii.
 From Coq Require Import ZArith QArith List Bool.
 Require Import DS.Model.Value DS.Model.FilterExpr DS.Gen.GenPrune DS.Model.Prune DS.Proofs.PruneProofs.
-Require Import DS.Gen.GenFilterConst DS.Gen.GenFilter DS.Model.Filter DS.Proofs.FilterProofs.
+Require Import DS.Gen.GenFilterConst DS.Gen.GenFilter DS.Model.Filter DS.Proofs.FilterProofs DS.Proofs.TextBounds.
 Import ListNotations.
 Open Scope Z_scope.
 
@@ -91,6 +91,54 @@ Theorem C12_api_sql :
     /\ iter_records X E PA sch ids (stored_bounds ids) cols flt files = answer.
 Proof. exact api_sql. Qed.
 Print Assumptions C12_api_sql.
+
+(* The stored statistics need not be the exact minimum / maximum: the same answer for ANY stored bounds that are
+   SOUND for the filter (`bounds_sound`: no expression prunes a file in which it selects a row). *)
+Theorem C12_api_sql_sound_bounds :
+  forall (X : value -> value -> bool) (E : cexpr -> row -> bool) (PA : parg -> bool)
+         (sch : list Z) (ids : list (Z * Z)) (bounds : file -> list (Z * value) * list (Z * value))
+         (split : list row -> list (list row)) (v : bool)
+         (cols : option (list Z)) (flt : pyfilter) (files : list file)
+         (ps : list pexpr) (ce : option cexpr) (es : list fexpr),
+    prepare PA flt = Ok (ps, ce) ->
+    map to_fexpr ps = map Some es ->
+    valid_cols sch cols -> (forall l, concat (split l) = l) ->
+    bounds_sound X ids bounds es files ->
+    (forall e f r, ce = Some e -> In f files -> In r (frows f) -> eval3 X E e r <> None) ->
+    let answer := Ok (sel cols (filter (row_selected X es) (concat (map frows files)))) in
+    scan_table X E PA sch ids bounds v cols flt files = answer
+    /\ flat (scan_batches X E PA sch ids bounds split cols flt files) = answer
+    /\ iter_records X E PA sch ids bounds cols flt files = answer.
+Proof. exact api_sql_gen. Qed.
+Print Assumptions C12_api_sql_sound_bounds.
+
+(* Text columns: CONSERVATIVE bounds (any string below every value as lower bound, any string above every value as
+   upper bound -- of any length) are sound for every operator and literal ... *)
+Theorem C12_text_bounds_conservative :
+  forall (X : value -> value -> bool) (lo hi : list (Z * value)) (ids : list (Z * Z)) (rows : list row) (e : fexpr)
+         (cid : Z) (l h : list Z),
+    lookup (fcol e) ids = Some cid -> lookup cid lo = Some (VStr l) -> lookup cid hi = Some (VStr h) ->
+    (forall r, In r rows -> text_or_null (cell r (fcol e))) ->
+    (forall r, In r rows -> is_null (cell r (fcol e)) = false ->
+               vle (VStr l) (cell r (fcol e)) /\ vle (cell r (fcol e)) (VStr h)) ->
+    expr_bounds_ok X lo hi ids rows e.
+Proof. exact text_bounds_ok. Qed.
+Print Assumptions C12_text_bounds_conservative.
+
+(* ... a prefix of a string is below it (a truncated minimum is a sound lower bound) ... *)
+Theorem C12_prefix_lower_bound : forall (n : nat) (s : list Z), vle (VStr (firstn n s)) (VStr s).
+Proof. exact prefix_is_lower_bound. Qed.
+Print Assumptions C12_prefix_lower_bound.
+
+(* ... but a prefix of the maximum is NOT a sound upper bound: the file is pruned although a row is selected. *)
+Theorem C12_prefix_upper_bound_refuted :
+  exists (X : value -> value -> bool) lo hi ids rows e,
+    (forall r, In r rows -> vle (VStr [97]) (cell r (fcol e)))
+    /\ ~ expr_bounds_ok X lo hi ids rows e
+    /\ file_may_match lo hi ids [e] = false
+    /\ exists r, In r rows /\ row_selected X [e] r = true.
+Proof. exact prefix_upper_bound_refuted. Qed.
+Print Assumptions C12_prefix_upper_bound_refuted.
 
 (* The "pyarrow does not refuse" hypothesis is satisfiable in general: it holds on every row that has
    the columns the expression reads and whose cells are comparable with the scalar literals (or NULL),
